@@ -858,6 +858,22 @@ class XR(Sym):
         i = z3.ToInt(self.v)
         return XR(z3.ToReal(i), it=i)
 
+    def rint(self):
+        """nearest integer, ties to even (exact real arithmetic)"""
+        if not self.plain:
+            raise NotModelled('rint of a possibly non-finite extended real')
+        if self.it is not None:
+            return self
+        fl = z3.ToInt(self.v)
+        fr = self.v - z3.ToReal(fl)
+        i = z3.If(fr < z3.RealVal(1) / 2, fl, z3.If(fr > z3.RealVal(1) / 2, fl + 1, z3.If(fl % 2 == 0, fl, fl + 1)))
+        return XR(z3.ToReal(i), it=i)
+
+    def __round__(self, n=None):
+        if n is None:
+            return SInt(self.rint().it)
+        raise NotModelled('round(x, n)')
+
     def sqrt(self): return xuf('sqrt', self)
     def log(self): return xlog(self)
     def log10(self): return xlog(self, 'log10')
